@@ -7,13 +7,19 @@ def plan(tier):
     conds += C.t_upd_conds("C16", tier)
     from vf.driver import Cond
     conds.append(Cond("vf.h.h_clock", "h_restep", case=0, timeout=600, label="H16-restep-saved-payload", weight=20))
+    conds.append(Cond("vf.h.h_clock", "h_restep_human", case=0, timeout=600, label="H16-restep-human-driver", weight=5))
+    ek = ("vehicle", "request", "station", "base")
+    op = ("add", "modify", "remove")
+    for k in range(4):
+        for o in range(3):
+            conds.append(Cond("vf.h.h_idx", "h_idx2", case=k * 4 + o, timeout=600, label=f"H16-two-ops[{ek[k]}.{op[o]} then any]", weight=15))
     return {
         "conds": conds,
         "min_classes": 150,
-        "explanation": 'C16: a retained pre-state object is structurally identical (deep snapshot incl. instance ids) after the transition, and applying the same transition twice from it gives equal results modulo instance ids. H16-restep: a saved payload (state + controller objects returned by a real step) is stepped twice through the real Update.apply_update: equal results, check-point unchanged.',
-        "entry_points": ['step_simulation_ops.apply_instructions', 'step_simulation_ops.step_vehicle (VehicleState.update -> default_update -> move/charge/idle/pick_up_trip/drop_off_trip)'],
+        "explanation": 'C16: a retained pre-state object is structurally identical (deep snapshot incl. instance ids) after the transition, and applying the same transition twice from it gives equal results modulo instance ids. H16-restep: a saved payload (state + controller objects returned by a real step) is stepped twice through the real Update.apply_update: equal results, check-point unchanged. H16-restep-human-driver: the same with a human driver who relocates on his own (two equally dense request cells), every random draw reachable from nrel.hive module globals being a solver-chosen value. H16-two-ops: two consecutive simulation_state_ops operations (add / modify / remove of a vehicle, request, station or base); the state kept between them and the initial state read the same afterwards, and the second operation repeated from the kept state gives an equal result.',
+        "entry_points": ['simulation_state_ops.{add,modify,remove}_{vehicle,request,station,base}_safe', 'DictOps.add_to_collection_dict/remove_from_collection_dict', 'HumanAvailable.generate_instruction / human_look_for_requests', 'step_simulation_ops.apply_instructions', 'step_simulation_ops.step_vehicle (VehicleState.update -> default_update -> move/charge/idle/pick_up_trip/drop_off_trip)'],
         "bounds": C.ARENA_BOUNDS + C.T_BOUNDS,
         "outside": C.T_OUTSIDE,
-        "stubs": C.STUBS_COMMON + C.STUBS_UPD,
+        "stubs": C.STUBS_COMMON + C.STUBS_UPD + ["SymRandom: the random module / random.Random instances held in nrel.hive module globals return fresh solver-chosen draws (no such global exists in the pinned tree)"],
         "assumptions": ["pre-state satisfies INV (DESIGN 3.2); INV base case is the loader's initial state"],
     }
